@@ -81,6 +81,26 @@ def rust_chunk(args):
     return out
 
 
+def stacked(heads):
+    """all two-level stacks of pending substitutions (element / set variables 0 and 1 as variables and as plugs) on the heads"""
+    from . import bridge
+    P = bridge.P
+    x0, x1, X0, X1 = P.EVar(0), P.EVar(1), P.SVar(0), P.SVar(1)
+    layers = [(P.ESubst, x0), (P.ESubst, x1), (P.SSubst, X0), (P.SSubst, X1)]
+    plugs = [x0, x1, X0, X1]
+    out = []
+    for hd in heads:
+        for c1, v1 in layers:
+            for p1 in plugs:
+                inner = c1(hd, v1, p1)
+                for c2, v2 in layers:
+                    for p2 in plugs:
+                        out.append(c2(inner, v2, p2))
+                        if p2 is x0 and p1 is X0:
+                            out.append(P.neg(c2(inner, v2, p2)))
+    return out
+
+
 def py_space(size):
     """Python patterns judged: the bounded universe plus STACKED pending substitutions (two levels, element and set
     variables 0/1 as variables and as plugs) on plain, singly and doubly constrained metavariables, bare and under neg"""
@@ -89,19 +109,8 @@ def py_space(size):
     S = list(bridge.repo_universe(size, extra_meta=True))
     x0, x1, X0, X1 = P.EVar(0), P.EVar(1), P.SVar(0), P.SVar(1)
     heads = [P.MetaVar(0), P.MetaVar(0, e_fresh=(x0,), s_fresh=(X0,)), P.MetaVar(0, s_fresh=(X0,)), P.MetaVar(0, e_fresh=(x0,)),
-             P.MetaVar(0, e_fresh=(x1,), s_fresh=(X1,))]
-    layers = [(P.ESubst, x0), (P.ESubst, x1), (P.SSubst, X0), (P.SSubst, X1)]
-    plugs = [x0, x1, X0, X1]
-    for hd in heads:
-        for c1, v1 in layers:
-            for p1 in plugs:
-                inner = c1(hd, v1, p1)
-                for c2, v2 in layers:
-                    for p2 in plugs:
-                        S.append(c2(inner, v2, p2))
-                        if p2 is x0 and p1 is X0:
-                            S.append(P.neg(c2(inner, v2, p2)))
-    return S
+             P.MetaVar(0, e_fresh=(x1,), s_fresh=(X1,)), P.MetaVar(0, e_fresh=(x0, x1)), P.MetaVar(0, s_fresh=(X0, X1))]
+    return S + stacked(heads)
 
 
 def py_chunk(args):
